@@ -12,16 +12,22 @@ import numpy as np
 from common import Case, Failure, f2x, x2f, flist, ilist, parse_flist, call, close_vec, err_kind
 
 PID = 'C19'
-LEAN_TARGETS = ['Nitime.Props.C19']
+LEAN_TARGETS = ['Nitime.Props.C19', 'Nitime.Props.C19Rows']
 RULE = ('planted designs from one PRNG state: response length L 2..8 (quick; to 32 thorough), 1-3 event types from '
         '{1,2,3,5,7,-1,-2,-3}, overlapping (FIR) or separated (ETA/ETS/et_data) placements, 1-d / 1-3 channel data, '
         'shared or per-channel events, offsets 0..3 (-3..3 for Events input), correct_baseline/zscore flags, 10 sampling '
         'intervals; integer responses (exact in binary64) and noisy variants; AMPLITUDE SCALE: every planted design is also run with '
         'per-channel gains over the decades 1e-300..1e300 (exact powers of two 2^-990..2^990 and decimal m*10^k; one channel at '
         'gain 1 next to a channel at e.g. 1e-11 in the same recording; all four outputs, both event representations, read '
-        'sequences), each channel judged relative to ITS OWN scale; distinct = distinct protocol line; '
+        'sequences), each channel judged relative to ITS OWN scale; 2-d event series whose ROWS use different code sets / counts / placements; '
+        'recordings stored as uint8/uint16/int16/int32/int64/float32/big-endian and read-only, event series in other dtypes, noisy float32 recordings; '
+        'sampling interval as number / time object / rate, offset and len_et as numpy integers, Events with data columns; two analyzers with different '
+        'options alive at once on the same input objects, cases re-run at the end of the process, xcorr_eta reads inside the read orders, results '
+        'overwritten by the caller right after each read; distinct = distinct protocol line; '
         'non-trivial = at least one event and a non-zero signal')
 ASSUMPTIONS = ['event codes are integers; responses and data are finite binary64 values (planted ones integer-valued)',
+               'a recording stored in another dtype IS its exact float64 embedding (integers of magnitude < 2^53, float32): the spec, the model and the oracle work on those numbers',
+               'rows of a 2-d event series use the same NUMBER of codes for FIR / eta / ets (the analyzer stacks the rows into one array); et_data admits any numbers',
                'windows of all events lie inside the recording (k + offset + L <= N), the domain on which the estimators are defined',
                'FIR designs are full column rank (checked by an independent dense rank computation; rank-deficient designs are counted and skipped)',
                'ets is judged only for types with >= 2 occurrences (the standard error of one sample is undefined: nan in both)',
@@ -220,12 +226,23 @@ def snapshot(a, T, E):
     return {'input-series': _bytes(T), 'input-events': _bytes(E), 'stored-data': _bytes(a.data), 'stored-events': _bytes(a.events)}
 
 
+def scribble_data(o):
+    """the caller overwrites, in place, the samples of a result it was handed (the `.data` of every series in it; the
+    time-axis attributes are left alone: they are small objects shared with the input by design)"""
+    if isinstance(o, (list, tuple)):
+        for x in o:
+            scribble_data(x)
+        return
+    d = getattr(o, 'data', None)
+    if isinstance(d, np.ndarray) and d.size and d.flags.writeable:
+        d[...] = -7.25 * (1 + np.arange(d.size).reshape(d.shape) % 3)
+
+
 def run_sequence(sp, order, scrib=False):
     """read the outputs in `order` on one analyzer; returns per read: canonical result, which snapshots
     changed across the read; and afterwards the canonical form of every EARLIER returned object again.
     `scrib`: the caller overwrites, in place, every array of each result right after it was handed out (it is the
     caller's to do with as it likes); `again` then holds, per read, which inputs / stored arrays THAT changed."""
-    import histories
     with warnings.catch_warnings():
         warnings.simplefilter('ignore')
         a, T, E = build(sp)
@@ -241,8 +258,9 @@ def run_sequence(sp, order, scrib=False):
             mutated.append(sorted(k for k in before if before[k] != after[k]))
             firsts.append(c)
             objs.append(o)
-            if scrib and o is not None:
-                histories.scribble(o)
+            if scrib:
+                if o is not None:
+                    scribble_data(o)
                 later = snapshot(a, T, E)
                 aliased.append(sorted(k for k in after if after[k] != later[k]))
         if scrib:
@@ -279,7 +297,8 @@ def with_xcorr(sp, order):
     if not run_impl(q).startswith('ok'):
         return list(order)
     k = sp['xc'] % (len(order) + 1)
-    return list(order[:k]) + ['xcorr'] + list(order[k:]) + (['xcorr'] if sp['xc'] % 2 else [])
+    # (a second read of the same getter returns the stored object: only when the caller has not overwritten it)
+    return list(order[:k]) + ['xcorr'] + list(order[k:]) + (['xcorr'] if sp['xc'] % 2 and not sp.get('scrib') else [])
 
 
 def sequence_failures(sp, order):
@@ -601,7 +620,58 @@ def gen_series(rng, tier, what, big=False, positive=False, off=None, rowcodes=Fa
           'zs': rng.random() < 0.3, 'si': si, 'unit': unit, 'nch': nch, 'N': N, 'evch': evch,
           'ev': [c for r in rows for c in r], 'data': data, 'resp': resp, 'planted': True, 'integer': True,
           'evfloat': rng.random() < 0.3}
+    if rowcodes:
+        sp['rowcodes'] = True
     return sp
+
+
+# dtype / layout families (the recording and the event series as stored by an acquisition system) -----------------
+DATA_DTYPES = ['uint8', 'uint16', 'int16', 'int32', 'int64', 'float32', '>f8', '>i4', '>f4', '>i2', 'float64']
+EV_DTYPES = ['int8', 'int16', 'int32', 'int64', 'uint8', 'float32', '>i4', '>f8', 'float64']
+
+
+def gen_typed(rng, sp, k=0):
+    """the same design with the recording stored in another dtype (unsigned / signed integers, float32, big-endian),
+    read-only arrays, the event series in another dtype, and the optional arguments in their other admissible forms
+    (sampling interval as time object / rate, offset as numpy integer, len_et as float)"""
+    q = dict(sp)
+    q.pop('rank_deficient', None)
+    cand = [d for d in DATA_DTYPES if fits(sp['data'], d)]
+    if cand:
+        pref = [d for d in ('uint8', 'uint16', 'float32', 'int16') if d in cand]
+        q['dtype'] = pref[k % len(pref)] if (pref and k % 3 != 2) else rng.choice(cand)
+    if sp['kind'] == 'series':
+        ecand = [d for d in EV_DTYPES if fits(sp['ev'], d)]
+        if ecand and rng.random() < 0.7:
+            q['evdtype'] = rng.choice(ecand)
+    else:
+        q['evcols'] = rng.random() < 0.6
+        q['evunit'] = rng.choice([None, 'ms', 's', 'us'])
+    q['ro'] = rng.random() < 0.3
+    q['ctor'] = rng.choice(['si', 'sitime', 'sitime', 'rate'])
+    q['offform'] = rng.choice(['int', 'npint'])
+    q['lenform'] = rng.choice(['int', 'npint'])
+    return q
+
+
+def noise32(rng, sp):
+    """a noisy recording held in single precision (the spec's numbers are the float32 values, exactly)"""
+    q = dict(sp)
+    q.pop('rank_deficient', None)
+    q['data'] = [float(np.float32(v + rng.uniform(-1, 1))) for v in sp['data']]
+    q.update(planted=False, integer=False, dtype='float32')
+    return q
+
+
+def variant_tag(sp):
+    """which input family a spec belongs to (goes into the failure key of the generic symptoms)"""
+    if sp.get('dtype') and sp['dtype'] != 'float64' and fits(sp['data'], sp['dtype']):
+        return '/dtype-' + sp['dtype'].lstrip('<>=')
+    if sp.get('evdtype'):
+        return '/evdtype-' + sp['evdtype'].lstrip('<>=')
+    if sp.get('rowcodes'):
+        return '/rowcodes'
+    return ''
 
 
 def gen_many_events(rng, what='fir', positive=False):
@@ -702,7 +772,7 @@ def gen_scaled(rng, sp):
     return scale_spec(sp, g)
 
 
-def gen_events(rng, tier, what):
+def gen_events(rng, tier, what, nonneg=False):
     """Events input: one type, separated placements, offsets may be negative"""
     L = rng.randint(2, 8)
     off = rng.choice([0, 0, 1, 2, 3, -1, -2, -3])
@@ -722,9 +792,11 @@ def gen_events(rng, tier, what):
     resp = []
     data = []
     for ch in range(C):
-        v = [float(rng.randint(-9, 9)) for _ in range(L)]
+        v = [float(rng.randint(0 if nonneg else -9, 9)) for _ in range(L)]
         if all(x == 0 for x in v):
             v[0] = 1.0
+        if nonneg and v[0] <= min(v[1:]):     # a response that dips below its first sample
+            v[0], v[1] = max(v) + 1.0, min(v)
         resp.append({'1': v})
         y = [0.0] * N
         for k in slots:
@@ -811,6 +883,49 @@ def fixed_specs():
             b2['what'] = what
             out.append(scale_spec(b2, [1.0, 1e-11]))
             out.append(scale_spec(b2, [2.0 ** 900, 3e-9]))
+    # ROWS THAT DIFFER: a 2-d event series, row 0 uses the codes {1,2}, row 1 the codes {1,3} (other placements, other
+    # counts), 2-d data; and a row with a negative code next to a row without -- every output
+    ea = [0, 1, 0, 0, 0, 2, 0, 0, 0, 1, 0, 0, 0, 2, 0, 0, 0, 0, 0, 0]
+    eb = [0, 0, 3, 0, 0, 0, 1, 0, 0, 0, 3, 0, 0, 0, 0, 3, 0, 0, 0, 0]
+    ec = [0, 0, 2, 0, 0, 0, -1, 0, 0, 0, 2, 0, 0, 0, 0, -1, 0, 0, 0, 0]
+    ra = {'1': [1.0, -2.0, 4.0], '2': [3.0, 5.0, -1.0]}
+    rb = {'1': [2.0, 7.0, -3.0], '3': [-4.0, 1.0, 6.0]}
+    rc = {'-1': [6.0, -5.0, 2.0], '2': [1.0, 8.0, -7.0]}
+    fa = [0, 1, 2, 0, 0, 1, 0, 2, 0, 2, 1, 0, 0, 0, 0, 0, 0, 0, 0, 0]
+    fb = [0, 3, 0, 1, 3, 0, 0, 1, 1, 0, 3, 0, 0, 0, 0, 0, 0, 0, 0, 0]
+    for what in ('fir', 'eta', 'ets', 'etdata'):
+        for off in (0, 1):
+            for (e0, e1, r0, r1) in ((fa, fb, ra, rb),) if what == 'fir' else ((ea, eb, ra, rb), (ea, ec, ra, rc)):
+                n = len(e0) + off
+                x0, x1 = e0 + [0] * off, e1 + [0] * off
+                out.append({'kind': 'series', 'what': what, 'off': off, 'L': 3, 'cb': what == 'eta' and off == 1, 'zs': False, 'si': 1.0, 'unit': 's',
+                            'nch': 2, 'N': n, 'evch': 2, 'ev': x0 + x1, 'data': plant(x0, r0, 3, off, n) + plant(x1, r1, 3, off, n),
+                            'resp': [r0, r1], 'planted': True, 'integer': True, 'rowcodes': True})
+    # RECORDINGS THAT ARE NOT float64: unsigned integers with a response that dips below its first sample (baseline
+    # correction must not wrap), float32, big-endian; both event representations
+    ru = [{'1': [5.0, 2.0, 7.0]}]
+    eu = [0, 0, 1, 0, 0, 0, 0, 0, 1, 0, 0, 0, 0, 0, 1, 0, 0, 0, 0, 0]
+    for dt in ('uint8', 'uint16', 'float32', '>i2', 'int64'):
+        for what in ('eta', 'ets', 'etdata', 'fir'):
+            for cb in (True, False):
+                if cb and what in ('etdata', 'fir'):
+                    continue
+                out.append({'kind': 'series', 'what': what, 'off': 0, 'L': 3, 'cb': cb, 'zs': False, 'si': 1.0, 'unit': 's', 'nch': 0, 'N': 20,
+                            'evch': 0, 'ev': eu, 'data': plant(eu, ru[0], 3, 0, 20), 'resp': ru, 'planted': True, 'integer': True, 'dtype': dt})
+                if what in ('eta', 'ets'):
+                    out.append({'kind': 'events', 'what': what, 'off': 0, 'L': 3, 'cb': cb, 'zs': False, 'si': 1.0, 'unit': 's', 'nch': 0, 'N': 20,
+                                'evch': 0, 'times': [k * 10**12 for k in (2, 8, 14)], 'slots': [2, 8, 14], 'data': plant(eu, ru[0], 3, 0, 20),
+                                'resp': ru, 'planted': True, 'integer': True, 'dtype': dt, 'evcols': dt == 'uint8'})
+    r32 = __import__('random').Random(32)
+    for what in ('eta', 'ets'):
+        base32 = {'kind': 'series', 'what': what, 'off': 0, 'L': 3, 'cb': False, 'zs': False, 'si': 1.0, 'unit': 's', 'nch': 0, 'N': 20,
+                  'evch': 0, 'ev': eu, 'data': plant(eu, ru[0], 3, 0, 20), 'resp': ru, 'planted': True, 'integer': True}
+        out.append(noise32(r32, base32))
+        b2 = dict(base32)
+        b2.update(kind='events', times=[k * 10**12 for k in (2, 8, 14)], slots=[2, 8, 14])
+        b2.pop('ev')
+        out.append(noise32(r32, b2))
+        out.append(series_of_events(out[-1]))
     out.append({'kind': 'design', 'L': 2, 'ev': [0, 1, 0, -1, 0, 0]})
     out.append({'kind': 'design', 'L': 2, 'ev': [0, 1, 0, 0, 0, 1]})     # short slice -> ValueError
     out.append({'kind': 'design', 'L': 3, 'ev': [2, 1, 2, 0, 7, 0, 0]})
@@ -835,9 +950,17 @@ def seq_specs(rng, tier):
                 base = gen_series(rng, tier, 'ets', positive=True, off=o)
                 base['zs'], base['cb'] = False, rng.random() < 0.4
             base = gen_scaled(rng, base)
-        for order in itertools.permutations(['fir', 'eta', 'ets', 'etdata']):
+        if o == 0:     # rows that differ in their code sets, stored as integers, other argument forms; results overwritten by the caller
+            base = gen_series(rng, tier, 'ets', positive=True, off=o, rowcodes=True, nonneg=True)
+            base['zs'], base['cb'] = rng.random() < 0.5, True
+            base = gen_typed(rng, base, len(out))
+        for n_o, order in enumerate(itertools.permutations(['fir', 'eta', 'ets', 'etdata'])):
             q = dict(base)
             q.update(kind='seq', base='series', order=list(order), what='seq')
+            if n_o % 2 == 0:
+                q['xc'] = n_o // 2 + 1          # reads of xcorr_eta in between (judged against a fresh analyzer only)
+            if n_o % 3 == 1:
+                q['scrib'] = True
             out.append(q)
     for i in range(3 if tier == 'quick' else 12):
         base = gen_events(rng, tier, 'eta')
@@ -846,9 +969,11 @@ def seq_specs(rng, tier):
         if i % 3 == 2:
             base['what'] = 'ets'
             base = gen_scaled(rng, base)
+        if i % 3 == 1:
+            base = gen_typed(rng, base, i)
         for order in (['eta', 'ets'], ['ets', 'eta']):
             q = dict(base)
-            q.update(kind='seq', base='events', order=order, what='seq')
+            q.update(kind='seq', base='events', order=order, what='seq', scrib=(order[0] == 'ets'))
             out.append(q)
     return out
 
@@ -861,6 +986,7 @@ def gen_specs(rng, tier):
         if i % 2 == 1:
             specs.append(gen_scaled(rng, specs[-1]))
     specs += seq_specs(rng, tier)
+    step = 2 if tier == 'quick' else 6       # how often the row / dtype families are added to the random stream
     for i in range(n):
         for what in ('fir', 'eta', 'ets', 'etdata'):
             sp = gen_series(rng, tier, what, big=(tier == 'thorough' and i % 10 == 0) or (tier == 'quick' and i % 30 == 29))
@@ -869,9 +995,33 @@ def gen_specs(rng, tier):
                 specs.append(add_noise(rng, sp))
             if i % 3 != 0:
                 specs.append(gen_scaled(rng, sp))
+            # rows of a 2-d event series that differ in their code sets / counts / placements
+            if i % step == 0:
+                specs.append(gen_series(rng, tier, what, rowcodes=True, nch=rng.choice([2, 2, 3])))
+            # the recording (and the event series) stored in other dtypes / read-only / other argument forms
+            if i % step == 1:
+                tsp = gen_series(rng, tier, what, nonneg=(i % 4 == 1), rowcodes=(i % 8 == 3))
+                if i % 4 == 1 and what in ('eta', 'ets'):
+                    tsp['cb'] = True
+                specs.append(gen_typed(rng, tsp, i // 2))
+                if what in ('eta', 'ets') and i % 6 == 1:
+                    specs.append(noise32(rng, tsp))
         for what in ('eta', 'ets'):
             sp = gen_events(rng, tier, what)
             specs.append(sp)
+            if i % step == 1:
+                tsp = gen_events(rng, tier, what, nonneg=(i % 4 == 1))
+                if i % 4 == 1:
+                    tsp['cb'] = True
+                tsp = gen_typed(rng, tsp, i // 2)
+                specs.append(tsp)
+                if tsp['off'] >= 0:
+                    specs.append(series_of_events(tsp))
+                if i % 6 == 1:
+                    n32 = noise32(rng, tsp)
+                    specs.append(n32)
+                    if n32['off'] >= 0:
+                        specs.append(series_of_events(n32))
             if sp['off'] >= 0 and i % 2 == 0:
                 specs.append(series_of_events(sp))
             if i % 3 == 0:
@@ -898,8 +1048,43 @@ def gen_specs(rng, tier):
     return specs
 
 
+def cmp_values(exact):
+    def cmp(impl, model):
+        if not (impl.startswith('ok ') and model.startswith('ok ')):
+            return impl == model
+        a, b = parse_flist(impl[3:]), parse_flist(model[3:])
+        if len(a) != len(b):
+            return False
+        if exact:
+            return all(x == y or (x != x and y != y) for x, y in zip(a, b))
+        return close_nan(a, b, 1e-12)
+    return cmp
+
+
+def extra_cases(sp, c):
+    """the model functions the row / dtype theorems are stated with, on the same inputs: `etaBlock` with each row's own
+    types (op etarows) for 2-d event series, `etaRow` over `embedInt` (op etaint) for 1-d recordings stored as integers"""
+    out = []
+    if sp.get('kind') != 'series' or sp.get('what') != 'eta' or not c.impl.startswith('ok t0='):
+        return out
+    vals = c.impl.rpartition(' data=')[2]
+    if sp.get('evch'):
+        out.append(Case(line_of(sp).replace('C19 series eta', 'C19 etarows eta', 1), 'ok ' + vals, 'rows/eta',
+                        cmp=cmp_values(bool(sp.get('integer'))), meta=None))
+    dt = sp.get('dtype')
+    if dt and np.dtype(dt).kind in 'iu' and not sp['nch'] and fits(sp['data'], dt):
+        out.append(Case('C19 etaint 0 %d %d %d %s %s' % (1 if sp['cb'] else 0, sp['off'], sp['L'], ilist(sp['ev']), ilist([int(v) for v in sp['data']])),
+                        'ok ' + vals, 'dtype/eta-int', cmp=cmp_values(True), meta=None))
+    return out
+
+
 def cases(rng, tier, seed):
-    return [mk_case(sp) for sp in gen_specs(rng, tier)]
+    out = []
+    for sp in gen_specs(rng, tier):
+        c = mk_case(sp)
+        out.append(c)
+        out += extra_cases(sp, c)
+    return out
 
 
 # ------------------------------------------------------------------ oracle
@@ -945,8 +1130,11 @@ def check_case(c):
     pre = ('fir' if w == 'fir' else w) + ('/events-input' if kind == 'events' else '')
 
     def fail(sym, what):
-        return Failure('%s/%s' % (pre, sym), '%s %s (off=%d L=%d cb=%s nch=%d N=%d): %s; impl=%s' % (
-            kind, w, sp['off'], sp['L'], sp['cb'], sp['nch'], sp['N'], what, c.impl[:160]),
+        tag = variant_tag(sp) if sym in ('value', 'raises', 'shape', 'malformed', 'direct') else ''
+        fam = ' [data dtype %s, events dtype %s%s]' % (sp.get('dtype', 'float64'), sp.get('evdtype', 'int64'),
+                                                     ', rows with different code sets' if sp.get('rowcodes') else '') if tag else ''
+        return Failure('%s%s/%s' % (pre, tag, sym), '%s %s (off=%d L=%d cb=%s nch=%d N=%d)%s: %s; impl=%s' % (
+            kind, w, sp['off'], sp['L'], sp['cb'], sp['nch'], sp['N'], fam, what, c.impl[:160]),
             {'spec': sp}, case=c)
     if w == 'fir' and sp.get('rank_deficient'):
         return None
@@ -966,7 +1154,7 @@ def check_case(c):
     if int(fields['si']) != sps:
         return Failure('axis/%s/si' % pre, 'sampling interval %s ps, want %d ps' % (fields['si'], sps), {'spec': sp}, case=c)
     if not sp.get('planted'):
-        return None
+        return direct_check(sp, fields, vals, fail)
     if w == 'etdata':
         rows = ev_rows(sp)
         want_blocks, want = [], []
@@ -1029,6 +1217,63 @@ def check_case(c):
     return fail('value', 'estimate differs from the planted response: got %s want %s' % (vals[:8], want[:8]))
 
 
+def direct_values(sp):
+    """eta / ets / et_data of ANY recording (noisy ones included) straight from the stored numbers -- their exact float64
+    embedding -- by plain loops: the average as the exact rational mean (Fractions) rounded once, the standard error by
+    the textbook formula over exact rationals (one float sqrt at the end), et_data as copies.  -> (values, shape/blocks)"""
+    import math
+    C, N, L, off, w = n_channels(sp), sp['N'], sp['L'], sp['off'], sp['what']
+    vals, blocks, T = [], [], None
+    for ch in range(C):
+        d = sp['data'][ch * N:(ch + 1) * N]
+        if sp['kind'] == 'series':
+            row = ev_rows(sp)[ch]
+            groups = [[k for k, e in enumerate(row) if e == code] for code in my_types(row)]
+        else:
+            groups = [list(sp['slots'])]
+        T = len(groups) if T is None else T
+        for idx in groups:
+            wins = [[Fr(d[k + off + j]) for j in range(L)] for k in idx]
+            if w == 'etdata':
+                blocks.append(len(idx))
+                vals += [float(x) for win in wins for x in win]
+                continue
+            if sp['cb']:
+                wins = [[x - win[0] for x in win] for win in wins]
+            n = len(wins)
+            for j in range(L):
+                col = [win[j] for win in wins]
+                m = sum(col) / n
+                if w == 'eta':
+                    vals.append(float(m))
+                elif n < 2:
+                    vals.append(float('nan'))
+                else:
+                    vals.append(math.sqrt(float(sum((x - m) ** 2 for x in col) / (n - 1) / n)))
+    shape = blocks if w == 'etdata' else [x for x in ((C, T, L) if sp['kind'] == 'series' else (C, L)) if x != 1]
+    return vals, shape
+
+
+def direct_check(sp, fields, vals, fail):
+    """non-planted recordings: the estimate equals the direct computation from the stored numbers"""
+    w = sp['what']
+    if w == 'fir':
+        return None
+    want, shape = direct_values(sp)
+    if fields.get('blocks' if w == 'etdata' else 'shape') != ilist(shape):
+        return fail('shape', 'shape %s, want %s' % (fields.get('blocks' if w == 'etdata' else 'shape'), shape))
+    if w == 'etdata':
+        ok = vals == want
+    else:
+        q = dict(sp)
+        q['planted'] = False
+        ok = close_per_channel(q, vals, want, 1e-12 if w == 'eta' else 1e-9)
+    if not ok:
+        return fail('direct', '%s differs from the %s computed directly from the stored values (exact embedding into float64): got %s want %s' % (
+            w, 'exact rational average' if w == 'eta' else 'standard error of the mean' if w == 'ets' else 'windows', vals[:6], want[:6]))
+    return None
+
+
 def check_design(c):
     sp = c.meta
     ev, L = sp['ev'], sp['L']
@@ -1085,10 +1330,18 @@ def metamorphic(rng, cases_):
                                  {'spec': m, 'pair': 'series'}, case=c))
             continue
         same = a[0] == b[0] and len(a[1]) == len(b[1]) and all(x == y or (x != x and y != y) for x, y in zip(a[1], b[1]))
+        if not same and not m.get('integer') and a[0] == b[0]:
+            # noisy recordings: the two representations list the events in different orders (np.where sorts them, the
+            # Events object keeps the caller's order), so the sums may differ in the last place -- not more
+            qq = dict(m)
+            qq['planted'] = False
+            same = close_per_channel(qq, a[1], b[1], 1e-12 if m['what'] == 'eta' else 1e-11)
         if not same:
             sym = 'correct-baseline-ignored' if (m['cb'] and m['what'] == 'eta') else ('cb' if m['cb'] else 'differs')
             key = ('eta/events-input/correct-baseline-ignored' if sym == 'correct-baseline-ignored'
                    else 'repr-equiv/%s/%s' % (m['what'], sym))
+            if variant_tag(m).startswith('/dtype-'):
+                key = 'repr-equiv/%s%s' % (m['what'], variant_tag(m))
             fails.append(Failure(key, 'event-coded series and event times give different %s: %s vs %s' % (m['what'], s.impl[:100], c.impl[:100]),
                                  {'spec': m, 'pair': 'series'}, case=c))
     # linearity: est(a*y1 + y2) = a*est(y1) + est(y2), same design, per channel
@@ -1117,7 +1370,84 @@ def metamorphic(rng, cases_):
         if f:
             f.case = None
             fails.append(f)
+    # process histories: two analyzers with different options alive at once on the same input objects; and the cases of
+    # the first phase run AGAIN on fresh inputs after everything else this process has done since
+    pool = [c for c in cases_ if c.meta and c.meta.get('kind') in ('series', 'events') and not c.impl.startswith('err')]
+    stride = 9 if len(pool) < 6000 else 45
+    for c in pool[2::stride]:
+        try:
+            f = interleave_check(c.meta)
+        except Exception as e:  # noqa  (a constructor that raises on the alternative options etc.)
+            f = Failure('interleave/raises', 'two analyzers on the same input objects: %r' % e, {'spec': c.meta, 'inter': True})
+        n += 1
+        if f:
+            fails.append(f)
+    for c in pool[4::stride]:
+        try:
+            f = rerun_check(c.meta, first=c.impl)
+        except Exception as e:  # noqa
+            f = Failure('rerun/raises', 'the same call again: %r' % e, {'spec': c.meta, 'rerun': True})
+        n += 1
+        if f:
+            fails.append(f)
     return fails, n
+
+
+def alt_options(sp):
+    """the same recording and events analysed with OTHER option values (shorter window, smaller offset, the flags
+    flipped); every window of the alternative lies inside the recording whenever the original's does"""
+    q = dict(sp)
+    q.pop('rank_deficient', None)
+    q.update(L=max(2, sp['L'] - 1), cb=not sp['cb'], zs=not sp.get('zs'),
+             off=(max(sp['off'] - 1, 0) if sp['off'] >= 0 else sp['off'] + 1))
+    q['planted'] = False
+    return q
+
+
+def getters_of(sp):
+    return ['fir', 'eta', 'ets', 'etdata'] if sp.get('base', sp['kind']) == 'series' else ['eta', 'ets']
+
+
+def interleave_check(sp):
+    """process history, two analyzers alive at once: A and B are built on the SAME input objects with different
+    options and read alternately; every read equals what a fresh analyzer with those options gives on fresh inputs"""
+    alt = alt_options(sp)
+    rp = {'spec': sp, 'inter': True}
+    ws = getters_of(sp)
+    got = []
+    with warnings.catch_warnings():
+        warnings.simplefilter('ignore')
+        a, T, E = build(sp)
+        b, _, _ = build(alt, shared=(T, E))
+        for k, w in enumerate(ws):
+            for who, an in ((('A', a), ('B', b)) if k % 2 == 0 else (('B', b), ('A', a))):
+                try:
+                    got.append((who, w, canon_read(w, read(an, w))))
+                except Exception as e:  # noqa
+                    got.append((who, w, 'err ' + err_kind(e)))
+    for who, w, r in got:
+        q = dict(sp if who == 'A' else alt)
+        q['what'] = w
+        fresh = run_impl(q)
+        if not same_out(q, w, r, fresh):
+            return Failure('interleave/%s/value' % w, '%s of analyzer %s (len_et=%d offset=%d correct_baseline=%s zscore=%s), read while another analyzer '
+                           'on the same input objects with other options (len_et=%d offset=%d) is in use, differs from a fresh analyzer on fresh inputs: %s vs %s' % (
+                               w, who, q['L'], q['off'], q['cb'], q.get('zs'), (alt if who == 'A' else sp)['L'], (alt if who == 'A' else sp)['off'], r[:100], fresh[:100]), rp)
+    return None
+
+
+def rerun_check(sp, first=None):
+    """process history, one entry point called again: the case is run, then the same recording with OTHER options,
+    then the case again on fresh inputs -- same canonical answer every time (and as `first`, the answer of the cases
+    phase that ran before everything else in this process)"""
+    r1 = run_impl(sp)
+    run_impl(alt_options(sp))
+    r2 = run_impl(sp)
+    for x, y, how in ((first, r2, 'than at the start of the process'), (r1, r2, 'than before a call with other options')):
+        if x is not None and not same_out(sp, sp['what'], x, y):
+            return Failure('rerun/%s/%s/value' % (sp['kind'], sp['what']), 'the same call on fresh inputs gives another result %s: %s vs %s' % (how, x[:100], y[:100]),
+                           {'spec': sp, 'rerun': True})
+    return None
 
 
 def linear_check(m, a, nseed):
@@ -1133,7 +1463,10 @@ def linear_check(m, a, nseed):
             return Failure('linear/%s/raises' % m['what'], 'estimator raised on a linear combination of admissible data', {'spec': m, 'lin': [a, nseed]})
         outs.append(np.array(o[1]))
     want = a * outs[0] + outs[1]
-    if not close_vec(list(outs[2]), list(want), rtol=1e-9):
+    # judged at the scale of the DATA (a recording at amplitude 1e268 whose estimate happens to be 0 absorbs the second,
+    # unit-amplitude recording completely: not a failure of linearity)
+    dmax = float(np.max(np.abs(a * y1 + y2))) if len(y1) else 0.0
+    if not close_vec(list(outs[2]), list(want), rtol=1e-9, atol=1e-9 * dmax):
         return Failure('linear/%s/value' % m['what'], 'est(a*y1+y2) != a*est(y1)+est(y2) (a=%s)' % a, {'spec': m, 'lin': [a, nseed]})
     return None
 
@@ -1155,10 +1488,11 @@ def scale_check(m, gains):
     if w == 'etdata':
         fields = dict(f.split('=') for f in o1[0].split()[1:])
         counts = [int(t) for t in fields['blocks'].split(',')] if fields['blocks'] != '-' else []
-        per = len(counts) // C if C and len(counts) % C == 0 else None
-        if per is None:
+        ntypes = [len(my_types(r)) for r in ev_rows(m)]      # rows of a 2-d event series may use different numbers of codes
+        if sum(ntypes) != len(counts):
             return None
-        sizes = [sum(counts[ch * per:(ch + 1) * per]) * m['L'] for ch in range(C)]
+        starts = [sum(ntypes[:ch]) for ch in range(C)]
+        sizes = [sum(counts[starts[ch]:starts[ch] + ntypes[ch]]) * m['L'] for ch in range(C)]
         A, B, k = [], [], 0
         for n in sizes:
             A.append(o1[1][k:k + n])
@@ -1224,6 +1558,10 @@ def _replay(d):
     sp.pop('rank_deficient', None)
     if d.get('seq'):
         return sequence_check(sp, d['order'], d.get('key'))
+    if d.get('inter'):
+        return interleave_check(sp)
+    if d.get('rerun'):
+        return rerun_check(sp)
     if 'lin' in d:
         return linear_check(sp, d['lin'][0], d['lin'][1])
     if 'scale' in d:
